@@ -326,6 +326,61 @@ func main() {
 			})
 		})
 
+		// Header lines far longer than any buffer, up to several MiB: one peer at a time, the
+		// same bytes under every read buffer size must give the same outcome and the same data
+		// (a length limit, if any, may not depend on how the line was cut into buffer fills).
+		r.Part("E2c-very-long-lines-buffer-independence", func(t *explore.T) {
+			lens := []int{100, 4095, 4096, 4097, 65535, 65536, 65537, 1<<20 - 1, 1 << 20, 1<<20 + 1, 1<<20 + 30000, 1<<21 + 5, 1<<22 + 1}
+			bufs := []int{0, 16, 512, 4096, 65536, 1 << 21}
+			for _, L := range lens {
+				for _, side := range []string{"upgrader", "dialer"} {
+					L, side := L, side
+					t.DoN(int64(len(bufs)), func() string {
+						return fmt.Sprintf("%s reads a header line of %d bytes under read buffers %v", side, L, bufs)
+					}, func() *explore.Fail {
+						line := "X-Long: " + strings.Repeat("v", L-10) + "\r\n"
+						var first string
+						for _, B := range bufs {
+							var obs string
+							if side == "upgrader" {
+								req := "GET /chat HTTP/1.1\r\nHost: example.com\r\nUpgrade: websocket\r\nConnection: Upgrade\r\n" + line +
+									"Sec-WebSocket-Key: " + hs.CanonKey + "\r\nSec-WebSocket-Version: 13\r\nSec-WebSocket-Protocol: a\r\n\r\n"
+								u := ws.Upgrader{ReadBufferSize: B, Protocol: func(b []byte) bool { return true }}
+								var out bytes.Buffer
+								h, err := u.Upgrade(struct {
+									io.Reader
+									io.Writer
+								}{strings.NewReader(req), &out})
+								obs = fmt.Sprintf("ok=%v proto=%q wrote=%q", err == nil, h.Protocol, out.String())
+							} else {
+								conn := &hs.LazyConn{}
+								conn.Respond = func(req []byte) []byte {
+									return []byte("HTTP/1.1 101 Switching Protocols\r\nUpgrade: websocket\r\n" + line + "Connection: Upgrade\r\nSec-WebSocket-Accept: " +
+										hs.Accept(hs.KeyOf(req)) + "\r\nSec-WebSocket-Protocol: a\r\n\r\nTAIL")
+								}
+								d := ws.Dialer{ReadBufferSize: B, Protocols: []string{"a"}}
+								br, h, err := d.Upgrade(conn, theURL)
+								tail := ""
+								if br != nil {
+									b, _ := io.ReadAll(br)
+									tail = string(b)
+									ws.PutReader(br)
+								}
+								obs = fmt.Sprintf("ok=%v proto=%q tail=%q", err == nil, h.Protocol, tail)
+							}
+							if first == "" {
+								first = obs
+							} else if obs != first {
+								return explore.Failf("outcome-depends-on-read-buffer-size:"+side, "line of %d bytes: buffer %d gives %s, buffer %d gives %s", L, bufs[0], first, B, obs)
+							}
+						}
+						t.Outcome(first[:8])
+						return nil
+					})
+				}
+			}
+		})
+
 		r.Part("E3-debug-wrappers", func(t *explore.T) {
 			type dcase struct {
 				p        pair
